@@ -1137,6 +1137,53 @@ def runlib_written_files(ctx):
     return n, problems
 
 
+def object_history(ctx):
+    """one in-memory Metablock signed / verified, then its payload edited IN PLACE, then verified / signed again:
+    every signature check and every signature is about the content the object holds at that moment.
+    -> (cases, problems)"""
+    from in_toto.models.layout import Layout
+    from in_toto.models.link import Link
+    from in_toto.models.metadata import Metablock, Metadata
+    problems, n = [], 0
+    wd = os.path.join(ctx.work, "c09hist")
+    os.makedirs(wd, exist_ok=True)
+    for fam, idx in (("ed25519", 0), ("rsa", 0), ("ecdsa", 0)):
+        key = hk.sslib_key(fam, idx)
+        # (1) verify, edit in place, verify again
+        md = Metablock(signed=Link(name="s", products={"a": {"sha256": "00" * 32}}, materials={}))
+        md.create_signature(key.signer)
+        path = os.path.join(wd, "h.link")
+        md.dump(path)
+        obj = Metadata.load(path)
+        n += 1
+        try:
+            obj.verify_signature(key.pub)
+        except Exception as e:  # noqa
+            problems.append("%s: freshly written link does not verify: %s" % (fam, type(e).__name__))
+        obj.signed.products["a"] = {"sha256": "11" * 32}
+        n += 1
+        try:
+            obj.verify_signature(key.pub)
+            problems.append("%s: a loaded link still verifies after one of its product hashes was changed in place" % fam)
+        except Exception:  # noqa
+            pass
+        # (2) sign, edit in place, sign again, write, load, verify
+        lay = Metablock(signed=Layout(steps=[], inspect=[], keys={}, expires="2035-01-01T00:00:00Z", readme="v1"))
+        lay.create_signature(key.signer)
+        lay.signed.readme = "v2"
+        lay.signatures = []
+        lay.create_signature(key.signer)
+        p2 = os.path.join(wd, "h.layout")
+        lay.dump(p2)
+        n += 1
+        try:
+            Metadata.load(p2).verify_signature(key.pub)
+        except Exception as e:  # noqa
+            problems.append("%s: a layout signed again after an in-place edit does not verify once written and loaded: %s" % (
+                fam, type(e).__name__))
+    return n, problems
+
+
 def run(ctx):
     thorough = ctx.thorough()
     t_start = time.time()
@@ -1154,6 +1201,10 @@ def run(ctx):
                       {"kind": "locale_roundtrip", "env": {"LC_ALL": "C", "PYTHONUTF8": "0", "PYTHONCOERCECLOCALE": "0"},
                        "what": "Link with non-ASCII name/materials/byproducts, sign, dump, Metadata.load, verify_signature"})
 
+    oh_cases, oh_problems = object_history(ctx)
+    for pr in oh_problems[:3]:
+        violations += 1
+        ctx.violation("history of one metadata object: " + pr, {"kind": "object_history", "what": pr})
     rl_cases, rl_problems = runlib_written_files(ctx)
     for pr in rl_problems[:3]:
         violations += 1
@@ -1313,8 +1364,9 @@ def replay(ctx, obj):
     model = core.Model()
     init_pool(ctx)
     bad = False
-    if kind in ("runlib_written_files", "locale_roundtrip"):
-        problems = runlib_written_files(ctx)[1] if kind == "runlib_written_files" else locale_roundtrip(ctx)
+    if kind in ("runlib_written_files", "locale_roundtrip", "object_history"):
+        problems = (runlib_written_files(ctx)[1] if kind == "runlib_written_files" else
+                    object_history(ctx)[1] if kind == "object_history" else locale_roundtrip(ctx))
         for pr in problems[:5]:
             print("  -> " + pr)
         if problems:
